@@ -140,6 +140,11 @@ func (d *coreDriver) oneTrace(id int) error {
 	rnd := rand.New(rand.NewSource(d.seed*1000003 + int64(id)))
 	d.rnd = rnd
 	lay := drvLayouts[rnd.Intn(len(drvLayouts))].arch
+	// bulk writes: more than a thousand points into one archive in one call (the file has 8 pages)
+	big := (d.prop == "C05" || d.prop == "ALL") && id%8 == 5
+	if big {
+		lay = []MArch{{1, 2600}, {60, 50}}
+	}
 	method := drvMethods[rnd.Intn(len(drvMethods))]
 	unit := int64(1)
 	if method == "average" {
@@ -287,6 +292,9 @@ func (d *coreDriver) oneTrace(id int) error {
 		return m.sparseOf(ring)
 	}
 	steps := 12 + rnd.Intn(40)
+	if big {
+		steps = 5 + rnd.Intn(4)
+	}
 	for s := 0; s < steps; s++ {
 		r := rnd.Intn(100)
 		switch {
@@ -339,10 +347,40 @@ func (d *coreDriver) oneTrace(id int) error {
 				n = 20 + rnd.Intn(60)
 			}
 			pts := make([]MPoint, 0, n)
-			for i := 0; i < n; i++ {
-				pts = append(pts, MPoint{T: ptTime(sel), V: val()})
+			if big && rnd.Intn(3) > 0 {
+				sel = rnd.Intn(2) // best or the fine archive
+				n = 1024 + rnd.Intn(1500)
+				for i := 0; i < n; i++ {
+					pts = append(pts, MPoint{T: now - int64(n) + 1 + int64(i), V: val()})
+				}
+			} else {
+				for i := 0; i < n; i++ {
+					pts = append(pts, MPoint{T: ptTime(sel), V: val()})
+				}
 			}
 			pts = agreedOrder(pts, lay, sel, now)
+			rpts := toPoints(pts, m)
+			if (d.prop == "C03" || d.prop == "C01" || d.prop == "ALL") && rnd.Intn(4) == 0 {
+				// points far too old for every archive (up to the epoch itself, i.e. 2^31 s and more behind a clock beyond 2038):
+				// they are dropped, and nothing else in the batch may suffer. In the trace their time is clamped to what TLC's
+				// integers hold - every time older than the retention means the same to the specification.
+				for j := 0; j < 1+rnd.Intn(2); j++ {
+					ages := []int64{maxRet + 1 + rnd.Int63n(1000), 86400 * 400, 1<<31 - 1, 1 << 31, 1<<31 + 7, m.B + now - 1, m.B + now - 1 - rnd.Int63n(100000)}
+					age := ages[rnd.Intn(len(ages))]
+					if age > m.B+now-1 || age <= maxRet {
+						continue
+					}
+					mt := now - age
+					if mt < -2147000000 {
+						mt = -2147000000
+					}
+					mp, rp := MPoint{T: mt, V: val()}, wt.Point{Time: wt.Timestamp(m.B + now - age), Value: 0}
+					rp.Value = wt.Value(m.V(mp.V))
+					at := rnd.Intn(len(pts) + 1)
+					pts = append(pts[:at], append([]MPoint{mp}, pts[at:]...)...)
+					rpts = append(rpts[:at], append([]wt.Point{rp}, rpts[at:]...)...)
+				}
+			}
 			var pan string
 			func() {
 				defer func() {
@@ -350,7 +388,7 @@ func (d *coreDriver) oneTrace(id int) error {
 						pan = fmt.Sprint(rc)
 					}
 				}()
-				db.UpdatePointsForArchive(toPoints(pts, m), goArchive(sel), real(now))
+				db.UpdatePointsForArchive(rpts, goArchive(sel), real(now))
 			}()
 			ev := map[string]interface{}{"ev": "many", "sel": sel, "pts": pts, "now": now, "post": post()}
 			if pan != "" {
@@ -401,6 +439,14 @@ func (d *coreDriver) oneTrace(id int) error {
 			if f == 0 {
 				rf = 0
 			}
+			// a real until = 0 (no default substitution in the library: it is a window that ends at the epoch)
+			uzero := m.B <= 2147000000 && rnd.Intn(12) == 0
+			if uzero {
+				ru = 0
+				if rnd.Intn(2) == 0 {
+					f, rf = 0, 0
+				}
+			}
 			var o fetchObs
 			if (d.prop == "C05" || d.prop == "ALL") && rnd.Intn(2) == 0 {
 				// a second handle on the same file sees what was synced
@@ -438,7 +484,11 @@ func (d *coreDriver) oneTrace(id int) error {
 			} else {
 				res = []interface{}{o.Kind}
 			}
-			ev := map[string]interface{}{"ev": "fetch", "h": h, "a": a, "f": mf, "u": u, "now": now, "res": res}
+			mu := u
+			if uzero {
+				mu = -m.B
+			}
+			ev := map[string]interface{}{"ev": "fetch", "h": h, "a": a, "f": mf, "u": mu, "now": now, "res": res}
 			if o.Msg != "" {
 				ev["msg"] = o.Msg
 			}
